@@ -613,9 +613,12 @@ namespace fixedmath
   [[ nodiscard, gnu::const, gnu::always_inline ]]
   constexpr fixed_t ceil( fixed_t value ) noexcept
     {
-    fixed_internal result { (value.v + 0xffff) & ~((1<<16ll)-1) };
-    if( value.v < result ) 
+    //value.v + 0xffff must not overflow
+    if( fixed_likely( value.v <= std::numeric_limits<fixed_internal>::max() - 0xffff ) )
+      {
+      fixed_internal result { (value.v + 0xffff) & ~((1<<16ll)-1) };
       return as_fixed(result);
+      }
     return quiet_NaN_result();
     }
   
